@@ -20,6 +20,12 @@ claim("C15",
  "static analysis: SSA value-flow pattern (difference -> sign test, across calls), call-graph reachability of panic, who-may-call on sort entry points, control-dependence of the rebuild loop",
  "DESIGN.md §3 C15")
 
+claim("C17",
+ "Static character-class and taint analysis: the set of runes @sh leaves unquoted is computed from the unsafeChars regex constant and from the shape of shouldQuote (every returned value is `true` or the regex verdict) and must be a subset of the POSIX-inert set; the -o=shell name mapper and value-bypass predicates are evaluated exactly by interval algebra over their syntax and must stay within [A-Za-z0-9_]; the quoted form of quoteValue must be '..' with a valid quote idiom; scalar text reaches a writer only through the sanitisers (value-flow over SSA). Necessary conditions: one unsafe rune in a safe class is an injection for the string consisting of it.",
+ TB + " POSIX shell quoting rules (inert set, the two quote idioms) are the reference.",
+ "static analysis: regex class computed from the source constant, exact rune-set abstract interpretation of predicate syntax, SSA return-leaf and taint-flow rules",
+ "DESIGN.md §3 C17")
+
 na = {
  "C01": "whole-property quantifies over runtime values of all programs x documents; no structural clause with detection value beyond what C09/C11 already check (DESIGN.md §3 C01)",
 }
